@@ -62,6 +62,60 @@ func resReplay(s *Summary, raw json.RawMessage) {
 			resRun(s, &c, ctl, base, rep%3, rep >= 3 && rep < 6, rep >= 6)
 		}
 		resStrict(s, &c, ctl, base)
+		resLate(s, &c, ctl, base)
+	}
+}
+
+// resLate: the resource is mounted on a caching router that is already serving - catch-all dynamic routes have answered
+// (and cached) requests for the resource's fixed paths; from the moment it is mounted, the fixed paths are the resource's
+func resLate(s *Summary, c *resCase, ctl resCtl, base string) {
+	name := strings.ToLower(ctl.name)
+	r := newRouter(cachingOpts(16)...)
+	catch := func(cx *rux.Context) { cx.WriteString("catch-all") }
+	for _, p := range []string{"/{a}", "/{a}/{b}", "/{a}/{b}/{c}", "/{a}/{b}/{c}/{d}"} {
+		r.Add(p, catch, "GET", "POST")
+	}
+	root := "/" + strings.Trim(base+name, "/")
+	pathOf := map[string]string{"root": root, "create": root + "/create"}
+	serve := func(m, p string) (int, string) {
+		w := httptest.NewRecorder()
+		r.ServeHTTP(w, &http.Request{Method: m, URL: &url.URL{Path: p}, Header: http.Header{}, Proto: "HTTP/1.1"})
+		return w.Code, w.Body.String()
+	}
+	for _, p := range pathOf {
+		for _, m := range []string{"GET", "HEAD", "POST", "GET"} {
+			serve(m, p)
+		}
+	}
+	var pan any
+	func() {
+		defer func() { pan = recover() }()
+		r.Resource(base, ctl.mk())
+	}()
+	if pan != nil {
+		return // (judged by resRun)
+	}
+	for _, pr := range c.Probes {
+		m, kind, action := pr[0], pr[1], pr[2]
+		// (only the probes a FIXED route of the resource answers: a cached dynamic match is not re-validated when routes are
+		// added later, which no property asks for)
+		if !((kind == "root" && (action == "Index" || action == "Store")) || (kind == "create" && action == "Create")) {
+			continue
+		}
+		wantBody := action
+		if ctl.uses {
+			wantBody = "mw:" + action + ";" + action
+		}
+		for pass := 1; pass <= 2; pass++ {
+			code, body := serve(m, pathOf[kind])
+			s.Compared++
+			if code != 200 || body != wantBody {
+				s.mismatch(map[string]any{"kind": "resource", "aspect": "probe", "controller": ctl.name, "base": base, "what": fmt.Sprintf(
+					"Resource(%q, %s implementing %v) mounted on a caching router whose catch-all routes had already answered %s: %s %s (pass %d) answered %d %q, expected action %s (%q)",
+					base, ctl.name, c.Impl, pathOf[kind], m, pathOf[kind], pass, code, body, action, wantBody)}, c)
+				return
+			}
+		}
 	}
 }
 
@@ -263,6 +317,25 @@ func resFinish(s *Summary) {
 			}
 		}
 	}
+	// several VALUES of one controller type (a shelf per tenant): every mount is served by the actions - and guarded by the
+	// Uses() middleware - of the value it was given, on one router and on the next one
+	r1, r2 := rux.New(), newRouter(cachingOpts(4)...)
+	r1.Resource("/pub/", &Shelf{tag: "pub"})
+	r1.Resource("/adm/", &Shelf{tag: "adm"})
+	r2.Resource("/", &Shelf{tag: "third"})
+	for _, pr := range []struct {
+		r               *rux.Router
+		m, path, expect string
+	}{{r1, "GET", "/pub/shelf", "mw:-pub;pub:Index"}, {r1, "GET", "/adm/shelf", "mw:-adm;adm:Index"}, {r1, "GET", "/adm/shelf/7", "adm:Show"}, {r1, "DELETE", "/pub/shelf/7", "pub:Delete"},
+		{r1, "DELETE", "/adm/shelf/7", "adm:Delete"}, {r2, "GET", "/shelf", "mw:-third;third:Index"}, {r2, "GET", "/shelf/7", "third:Show"}, {r2, "GET", "/shelf/7", "third:Show"}} {
+		w := httptest.NewRecorder()
+		pr.r.ServeHTTP(w, &http.Request{Method: pr.m, URL: &url.URL{Path: pr.path}, Header: http.Header{}, Proto: "HTTP/1.1"})
+		s.Compared++
+		if w.Body.String() != pr.expect {
+			s.mismatch(map[string]any{"kind": "resource", "aspect": "probe", "what": fmt.Sprintf(
+				"three values of one controller type mounted as /pub/shelf, /adm/shelf and (next router) /shelf: %s %s answered %q, expected %q", pr.m, pr.path, w.Body.String(), pr.expect)}, nil)
+		}
+	}
 	// a non-pointer or non-struct controller is rejected
 	cases := []struct {
 		name string
@@ -284,4 +357,14 @@ func resFinish(s *Summary) {
 			s.mismatch(map[string]any{"kind": "resource", "aspect": "reject", "what": fmt.Sprintf("Resource with a %s controller: panicked=%v, expected %v", tc.name, pan != nil, tc.bad)}, nil)
 		}
 	}
+}
+
+// Shelf: a controller with state; every value serves its own mount
+type Shelf struct{ tag string }
+
+func (b *Shelf) Index(c *rux.Context)  { c.WriteString(b.tag + ":Index") }
+func (b *Shelf) Show(c *rux.Context)   { c.WriteString(b.tag + ":Show") }
+func (b *Shelf) Delete(c *rux.Context) { c.WriteString(b.tag + ":Delete") }
+func (b *Shelf) Uses() map[string][]rux.HandlerFunc {
+	return map[string][]rux.HandlerFunc{"Index": {resMw("-" + b.tag)}}
 }
